@@ -307,6 +307,9 @@ class Conjunction(Expression):
     def __repr__(self) -> str:
         return " & ".join("(%s)" % repr(element) for element in self._elements)
 
+    def __deepcopy__(self, memo: dict) -> Conjunction:
+        return Conjunction(*[deepcopy(e, memo) for e in self._elements])
+
     @overload
     def __and__(self, other: Union[Equality, Conjunction]) -> Conjunction: ...
 
@@ -359,6 +362,9 @@ class Disjunction(Expression):
 
     def __repr__(self) -> str:
         return " | ".join("(%s)" % repr(element) for element in self._elements)
+
+    def __deepcopy__(self, memo: dict) -> Disjunction:
+        return Disjunction(*[deepcopy(e, memo) for e in self._elements])
 
     def __and__(self, other: Expression) -> Disjunction:
         if isinstance(other, Equality) or isinstance(other, Conjunction):
